@@ -879,7 +879,11 @@ func (f *Fleet) PremiseWith(newest map[string]string) string {
 				if pub[dbi][k][v] {
 					continue
 				}
-				if mt, ok := maxTS[dbi][k]; ok && mt >= v.TS {
+				// beaten: something strictly newer is published. (A published
+				// version with the same timestamp does not cover this one: if
+				// it won the tie, this instance would hold it after merging
+				// it; if it lost, this version still has to be uploaded.)
+				if mt, ok := maxTS[dbi][k]; ok && mt > v.TS {
 					continue
 				}
 				return fmt.Sprintf("node %s holds unpublished %s/%q %s (newest snapshots considered: %v)", y.Name, dbi, k, v, newest)
